@@ -151,5 +151,13 @@ def run(ctx):
 
 
 def replay(ctx, obj):
+    """re-run a stored violation; OPEN violations carry the body: decode it again and show both sides"""
     print(obj)
+    v = obj.get('violation', obj) if isinstance(obj, dict) else {}
+    inp = v.get('input') if isinstance(v, dict) else None
+    if isinstance(inp, dict) and 'body' in inp:
+        import props.c14_open as c14_open
+        got = repr(c14_open.impl_parse(bytes.fromhex(inp['body']), named=True))[:600]
+        print('body   %s\ndecode %s\nwant   %s' % (inp['body'], got, inp.get('want')))
+        return 0 if got == inp.get('want') else 1
     return 0
